@@ -48,5 +48,5 @@ else:
         f.write("\n".join(sorted(claims)) + "\n")
 print("claimed", len(claims), "slow (not claimed):", slow)
 for f in res["funcs"]:
-    if f.get("error") or f["vacuity"] == "requires-unsat":
-        print("!!", f["key"], f.get("error"), f["vacuity"])
+    if f.get("error") or f["vacuity"] == "requires-unsat" or f.get("canary") == "all-returns-unreachable":
+        print("!!", f["key"], f.get("error"), f["vacuity"], f.get("canary"))
